@@ -7,6 +7,7 @@
 #include <sbepp/sbepp.hpp>
 #include <sbepp/sbeppc/sbe.hpp>
 #include <sbepp/sbeppc/throw_error.hpp>
+#include <sbepp/sbeppc/unique_set.hpp>
 #include <sbepp/sbeppc/utils.hpp>
 #include <sbepp/sbeppc/context_manager.hpp>
 #include <sbepp/sbeppc/ireporter.hpp>
@@ -1055,6 +1056,9 @@ private:
         const std::vector<sbe::enum_valid_value>& valid_values,
         const std::string_view primitive_type) const
     {
+        // enumerators become `case` labels so their values must be unique
+        unique_set<std::string> unique_values;
+
         for(const auto& value : valid_values)
         {
             validate_name(value);
@@ -1073,6 +1077,19 @@ private:
                     value.value,
                     primitive_type);
             }
+
+            // `1`, `01` and `-0`, `0` represent the same value
+            auto normalized_value =
+                is_char ? value.value : utils::strip_leading_zeros(value.value);
+            if(normalized_value == "-0")
+            {
+                normalized_value = "0";
+            }
+            unique_values.add_or_throw(
+                std::move(normalized_value),
+                "{}: duplicate validValue value: `{}`",
+                value.location,
+                value.value);
         }
     }
 
